@@ -78,6 +78,49 @@ CFG = {
 }
 
 
+def _b7_meets(obs, rule):
+    """obs = `mode.part.rot.sel.pbits.alpha` of one emitted block, rule = `modes.rots.sel.pbits.alpha` (see
+    Drv/C13.lean ruleString): mode / rotation must be among the listed digits, selector and forced p-bits must be
+    equal, the alpha endpoint fields must be the listed unordered pair; `*` / `x` = unconstrained."""
+    o, r = obs.split("."), rule.split(".")
+    if len(o) != 6 or len(r) != 5:
+        return False
+    mode, _part, rot, sel, pbits, alpha = o
+    rmodes, rrots, rsel, rpbits, ralpha = r
+    if mode not in rmodes:
+        return False
+    if rrots != "*" and rot not in rrots:
+        return False
+    if rsel != "*" and sel != rsel:
+        return False
+    if len(pbits) != len(rpbits) or any(y != "x" and x != y for x, y in zip(pbits, rpbits)):
+        return False
+    if ralpha != "*":
+        try:
+            if sorted(int(x) for x in alpha.split(",")) != sorted(int(x) for x in ralpha.split(",")):
+                return False
+        except ValueError:
+            return False
+    return True
+
+
+def equal(a, b):
+    """a = implementation, b = model.  Everything must be textually equal except the last token of BC7 cases: the
+    implementation prints the header fields of every emitted block (its own bit reader), the model prints
+    `<the same fields read with its reader>@<what its discrete rules allow for the input block>`; the fields must be
+    textually equal and every block must meet its rule (membership, as for the `plan` sets of C16)."""
+    if a == b:
+        return True
+    ta, tb = a.split(" "), b.split(" ")
+    if len(ta) != len(tb) or len(ta) != 7 or ta[:-1] != tb[:-1] or "@" not in tb[-1]:
+        return False
+    obs, rules = tb[-1].split("@", 1)
+    if obs != ta[-1]:
+        return False
+    lo, lr = obs.split(";"), rules.split(";")
+    return len(lo) == len(lr) and all(_b7_meets(x, y) for x, y in zip(lo, lr))
+
+
 def classify(c, r):
     t = c.split(" ")
     if len(t) < 8:
